@@ -47,6 +47,7 @@ import (
 	"errors"
 	"flag"
 	"fmt"
+	"io"
 	"math/rand"
 	"os"
 	"path/filepath"
@@ -54,7 +55,9 @@ import (
 	"sort"
 	"strings"
 	"sync"
+	"sync/atomic"
 	"time"
+	"unsafe"
 
 	mysqldrv "github.com/go-sql-driver/mysql"
 	"github.com/pinealctx/neptune/store/gormx"
@@ -77,6 +80,7 @@ type step struct {
 	Fin string `json:"fin"` // none | commit | rollback: the step ends the transaction itself
 	Fl  string `json:"fl"`  // flavour (harness only; the spec ignores it)
 	Fl2 string `json:"-"`   // fin flavour: "direct" on the handle | "sess" on a session of it
+	Do  int    `json:"-"`   // statements the closure really issues (= Ex unless the handle is a dry run)
 }
 
 type plan struct {
@@ -86,6 +90,11 @@ type plan struct {
 	Commit   bool   `json:"commit"`
 	Rollback bool   `json:"rollback"`
 	Cancel   int    `json:"cancel"` // -1 never | 0 before the call | k inside step k
+	Db       string `json:"db"`     // ok | nobegin | err: class of the handle given to Transact
+	// harness only (logged beside cfg, ignored by the spec)
+	Dbst string `json:"-"` // the concrete state of the handle
+	Ffl  string `json:"-"` // kind of error a refused begin / commit / rollback is answered with
+	Nfl  string `json:"-"` // how "no steps" is passed: none | nilslice | empty
 }
 
 func (p plan) rec() tr.E {
@@ -94,7 +103,7 @@ func (p plan) rec() tr.E {
 		st = append(st, tr.E{"out": s.Out, "ex": s.Ex, "fin": s.Fin, "fl": s.Fl})
 	}
 	return tr.E{"n": p.N, "steps": st, "begin": p.Begin, "commit": p.Commit, "rollback": p.Rollback,
-		"cancel": p.Cancel}
+		"cancel": p.Cancel, "db": p.Db}
 }
 
 // ---------------------------------------------------------------------------- event log
@@ -149,6 +158,33 @@ var (
 	errRollback = errors.New("fake: rollback refused")
 )
 
+// kinds of error the database answers a refused begin / commit / rollback with.  For Transact they
+// are all alike.  (driver.ErrBadConn is left to commit/rollback: on begin database/sql would retry
+// on a fresh connection, which is a different plan.)
+var failKinds = []string{"plain", "mysql1213", "mysql1205", "txdone", "conndone", "eof", "invalidconn", "badconn"}
+
+func failErr(kind string, plain error, begin bool) error {
+	switch kind {
+	case "mysql1213":
+		return &mysqldrv.MySQLError{Number: 1213, Message: "Deadlock found when trying to get lock"}
+	case "mysql1205":
+		return &mysqldrv.MySQLError{Number: 1205, Message: "Lock wait timeout exceeded"}
+	case "txdone":
+		return sql.ErrTxDone
+	case "conndone":
+		return sql.ErrConnDone
+	case "eof":
+		return io.ErrUnexpectedEOF
+	case "invalidconn":
+		return mysqldrv.ErrInvalidConn
+	case "badconn":
+		if !begin {
+			return driver.ErrBadConn
+		}
+	}
+	return plain
+}
+
 // script is what the fake database does during one Transact call.
 type script struct {
 	log        *evlog
@@ -156,21 +192,53 @@ type script struct {
 	connectOK  bool
 	commitOK   bool
 	rollbackOK bool
+	ffl        string       // kind of error a refused begin / commit / rollback is answered with
 	execFail   map[int]bool // step index -> its last statement fails
 	execLeft   map[int]int  // statements still to come per step (to find the last one)
-	nconn      int
+	quiet      bool         // harness' own preparation / clean-up: nothing is recorded, nothing fails
 }
 
-type connector struct{ s *script }
+func (s *script) add(e tr.E) {
+	if !s.quiet {
+		s.log.add(e)
+	}
+}
+
+// The script of a driver call is the one bound to the call's context (calls running side by side on
+// one database), else the current one of the database.
+type ctxKey struct{}
+
+type box struct {
+	mu  sync.Mutex
+	cur *script
+}
+
+func (b *box) of(ctx context.Context) *script {
+	if ctx != nil {
+		if s, ok := ctx.Value(ctxKey{}).(*script); ok {
+			return s
+		}
+	}
+	b.mu.Lock()
+	defer b.mu.Unlock()
+	return b.cur
+}
+
+func (b *box) set(s *script) {
+	b.mu.Lock()
+	b.cur = s
+	b.mu.Unlock()
+}
+
+type connector struct{ b *box }
 
 func (c connector) Driver() driver.Driver { return fakeDriver{} }
-func (c connector) Connect(context.Context) (driver.Conn, error) {
-	if !c.s.connectOK {
-		c.s.log.add(tr.E{"ev": "begin", "ok": false})
+func (c connector) Connect(ctx context.Context) (driver.Conn, error) {
+	if s := c.b.of(ctx); !s.connectOK && !s.quiet {
+		s.add(tr.E{"ev": "begin", "ok": false})
 		return nil, errConnect
 	}
-	c.s.nconn++
-	return &conn{s: c.s}, nil
+	return &conn{b: c.b}, nil
 }
 
 type fakeDriver struct{}
@@ -180,20 +248,22 @@ func (fakeDriver) Open(string) (driver.Conn, error) {
 }
 
 type conn struct {
-	s    *script
+	b    *box
 	intx bool
+	txs  *script // script of the transaction open on this connection
 }
 
-func (c *conn) Prepare(q string) (driver.Stmt, error) { return nil, errors.New("fake: no prepare") }
-func (c *conn) Close() error                          { return nil }
-func (c *conn) Begin() (driver.Tx, error)             { return c.BeginTx(context.Background(), driver.TxOptions{}) }
-func (c *conn) BeginTx(context.Context, driver.TxOptions) (driver.Tx, error) {
-	c.s.log.add(tr.E{"ev": "begin", "ok": c.s.beginOK})
-	if !c.s.beginOK {
-		return nil, errBegin
+func (c *conn) Close() error              { return nil }
+func (c *conn) Begin() (driver.Tx, error) { return c.BeginTx(context.Background(), driver.TxOptions{}) }
+func (c *conn) BeginTx(ctx context.Context, _ driver.TxOptions) (driver.Tx, error) {
+	s := c.b.of(ctx)
+	ok := s.beginOK || s.quiet
+	s.add(tr.E{"ev": "begin", "ok": ok})
+	if !ok {
+		return nil, failErr(s.ffl, errBegin, true)
 	}
-	c.intx = true
-	return &ftx{c}, nil
+	c.intx, c.txs = true, s
+	return &ftx{c, s}, nil
 }
 
 type result struct{}
@@ -201,39 +271,75 @@ type result struct{}
 func (result) LastInsertId() (int64, error) { return 0, nil }
 func (result) RowsAffected() (int64, error) { return 1, nil }
 
-func (c *conn) ExecContext(_ context.Context, q string, _ []driver.NamedValue) (driver.Result, error) {
+// a statement reached the database.  One that no step closure issued has index 0: whoever sent it,
+// the specification has no place for it.
+func (c *conn) exec(ctx context.Context, q string) (driver.Result, error) {
+	s := c.b.of(ctx)
+	if c.intx && c.txs != nil {
+		s = c.txs
+	}
 	var i int
-	k := strings.Index(q, "/*S")
-	if k < 0 {
-		tr.Fatal("fake driver: foreign statement %q", q)
+	if k := strings.Index(q, "/*S"); k >= 0 {
+		fmt.Sscanf(q[k:], "/*S%d*/", &i)
 	}
-	if _, err := fmt.Sscanf(q[k:], "/*S%d*/", &i); err != nil {
-		tr.Fatal("fake driver: foreign statement %q", q)
+	s.add(tr.E{"ev": "exec", "i": i, "tx": c.intx})
+	if s.quiet || i == 0 {
+		return result{}, nil
 	}
-	c.s.log.add(tr.E{"ev": "exec", "i": i, "tx": c.intx})
-	c.s.execLeft[i]--
-	if c.s.execFail[i] && c.s.execLeft[i] == 0 {
+	s.log.mu.Lock()
+	s.execLeft[i]--
+	fail := s.execFail[i] && s.execLeft[i] == 0
+	s.log.mu.Unlock()
+	if fail {
 		return nil, stepErr{i}
 	}
 	return result{}, nil
 }
 
-type ftx struct{ c *conn }
+func (c *conn) ExecContext(ctx context.Context, q string, _ []driver.NamedValue) (driver.Result, error) {
+	return c.exec(ctx, q)
+}
+
+// prepared statements (gorm's PrepareStmt mode): only the execution counts
+type fstmt struct {
+	c *conn
+	q string
+}
+
+func (c *conn) Prepare(q string) (driver.Stmt, error) { return &fstmt{c, q}, nil }
+func (st *fstmt) Close() error                        { return nil }
+func (st *fstmt) NumInput() int                       { return -1 }
+func (st *fstmt) Exec([]driver.Value) (driver.Result, error) {
+	return st.c.exec(context.Background(), st.q)
+}
+func (st *fstmt) ExecContext(ctx context.Context, _ []driver.NamedValue) (driver.Result, error) {
+	return st.c.exec(ctx, st.q)
+}
+func (st *fstmt) Query([]driver.Value) (driver.Rows, error) {
+	return nil, errors.New("fake: no queries")
+}
+
+type ftx struct {
+	c *conn
+	s *script
+}
 
 func (t *ftx) Commit() error {
-	t.c.s.log.add(tr.E{"ev": "commit", "ok": t.c.s.commitOK})
+	ok := t.s.commitOK || t.s.quiet
+	t.s.add(tr.E{"ev": "commit", "ok": ok})
 	t.c.intx = false
-	if !t.c.s.commitOK {
-		return errCommit
+	if !ok {
+		return failErr(t.s.ffl, errCommit, false)
 	}
 	return nil
 }
 
 func (t *ftx) Rollback() error {
-	t.c.s.log.add(tr.E{"ev": "rollback", "ok": t.c.s.rollbackOK})
+	ok := t.s.rollbackOK || t.s.quiet
+	t.s.add(tr.E{"ev": "rollback", "ok": ok})
 	t.c.intx = false
-	if !t.c.s.rollbackOK {
-		return errRollback
+	if !ok {
+		return failErr(t.s.ffl, errRollback, false)
 	}
 	return nil
 }
@@ -249,6 +355,8 @@ func token(i int, s step) string {
 	switch s.Out {
 	case "pnil":
 		return "nil"
+	case "nilfn":
+		return "nil pointer dereference"
 	case "panic":
 		switch s.Fl {
 		case "rt":
@@ -312,11 +420,14 @@ func errOf(i int, kind string) error {
 }
 
 func mkStep(l *evlog, i int, s step, cancel func()) gormx.GormProcFn {
+	if s.Out == "nilfn" {
+		return nil
+	}
 	return func(txn *gorm.DB) error {
 		l.add(tr.E{"ev": "step", "i": i})
 		var xerr error
 		wasOver := l.over()
-		for e := 0; e < s.Ex; e++ {
+		for e := 0; e < s.Do; e++ {
 			xerr = txn.Exec(fmt.Sprintf("UPDATE t SET v = v + 1 /*S%d*/", i)).Error
 		}
 		// the step ends the transaction itself, on the handle it got or on a session of it
@@ -334,12 +445,23 @@ func mkStep(l *evlog, i int, s step, cancel func()) gormx.GormProcFn {
 			alive := l.open()
 			cancel()
 			if alive { // database/sql rolls back on its own goroutine: wait for it to reach the driver
-				for n := 0; !l.over(); n++ {
-					if n > 200000 {
-						tr.Fatal("step %d: database/sql did not roll back after cancellation", i)
-					}
+				// (watchdog: a transaction that is not bound to the handle's context never does;
+				// then no rollback is recorded and the specification has no `end` for this step)
+				for t0 := time.Now(); !l.over() && time.Since(t0) < 2*time.Second; {
 					time.Sleep(50 * time.Microsecond)
 				}
+			}
+		}
+		// the step uses Transact again on the handle it was given: gorm refuses to begin inside a
+		// transaction (no savepoints here), the inner steps do not run, nothing reaches the database
+		var nerr error
+		if s.Fl == "nested" || s.Fl == "nestedok" {
+			nerr = gormx.Transact(txn, func(*gorm.DB) error {
+				l.add(tr.E{"ev": "step", "i": 0})
+				return nil
+			})
+			if nerr == nil { // cannot be: make it visible
+				l.add(tr.E{"ev": "commit", "ok": true})
 			}
 		}
 		l.add(tr.E{"ev": "end", "i": i, "out": s.Out})
@@ -352,10 +474,15 @@ func mkStep(l *evlog, i int, s step, cancel func()) gormx.GormProcFn {
 				if wasOver { // the statement never reached the driver: the step fails all the same
 					return l.fails(i, stepErr{i})
 				}
-				if xerr == nil {
-					tr.Fatal("step %d: planned statement failure did not happen", i)
+				if xerr == nil { // the statement did not reach the driver (its absence is in the log)
+					return l.fails(i, stepErr{i})
 				}
 				return l.fails(i, xerr)
+			case "nested":
+				if nerr == nil {
+					return l.fails(i, stepErr{i})
+				}
+				return l.fails(i, nerr)
 			}
 			return l.fails(i, errOf(i, s.Fl))
 		case "panic":
@@ -469,7 +596,51 @@ func classify(err error, p plan, l *evlog) tr.E {
 	return tr.E{"kind": "other", "i": 0}
 }
 
-func runOne(w *tr.W, rng *rand.Rand, src string, p plan) {
+// handle states gorm permits, by the class the specification knows
+var (
+	okStates = []string{"plain", "plain", "plain", "ctx", "session", "newdb", "debug", "where", "prepare",
+		"sessprep", "skipdef", "dryrun", "maxconn1"}
+	noBeginStates = []string{"intx", "closed"}
+	sharable      = map[string]bool{"plain": true, "ctx": true, "session": true, "newdb": true, "debug": true, "where": true}
+)
+
+// database = pool + gorm handle on the fake driver
+type database struct {
+	b     *box
+	sqlDB *sql.DB
+	db    *gorm.DB
+}
+
+func openDB(cfg *gorm.Config) *database {
+	b := &box{cur: &script{quiet: true}}
+	sqlDB := sql.OpenDB(connector{b})
+	cfg.DisableAutomaticPing = true
+	cfg.Logger = logger.Discard
+	db, err := gorm.Open(mysql.New(mysql.Config{Conn: sqlDB, SkipInitializeWithVersion: true}), cfg)
+	if err != nil {
+		tr.Fatal("gorm.Open on the fake driver: %v", err)
+	}
+	return &database{b, sqlDB, db}
+}
+
+// one pool is used again by later calls, like a service would, as long as it is healthy
+var shared *database
+
+// call is one prepared Transact call.
+type call struct {
+	p      plan
+	l      *evlog
+	sc     *script
+	args   []gormx.GormProcFn
+	shape  []interface{}
+	bfl    string
+	ctx    context.Context
+	cancel func()
+	fin    tr.E // ret / gone / hang
+	hung   bool
+}
+
+func normalize(rng *rand.Rand, p *plan, dberr bool) {
 	for k := range p.Steps {
 		s := &p.Steps[k]
 		if s.Fl == "" { // plans out of TLC fix outcome and statements; the flavour is ours
@@ -478,6 +649,8 @@ func runOne(w *tr.W, rng *rand.Rand, src string, p plan) {
 			case "ok":
 				if s.Ex > 0 && rng.Intn(6) == 0 {
 					s.Fl = "swallow"
+				} else if rng.Intn(12) == 0 {
+					s.Fl = "nestedok"
 				}
 			case "err":
 				s.Fl = errFl[rng.Intn(len(errFl))]
@@ -491,6 +664,9 @@ func runOne(w *tr.W, rng *rand.Rand, src string, p plan) {
 		if s.Fin == "" {
 			s.Fin = "none"
 		}
+		if s.Out == "nilfn" {
+			s.Ex, s.Fin, s.Fl = 0, "none", "plain"
+		}
 		s.Fl2 = []string{"direct", "sess"}[rng.Intn(2)]
 	}
 	if p.Cancel > len(p.Steps) || p.Cancel < -1 {
@@ -499,18 +675,56 @@ func runOne(w *tr.W, rng *rand.Rand, src string, p plan) {
 	if p.N == 0 && len(p.Steps) > 0 {
 		tr.Fatal("plan with steps but no arguments")
 	}
+	if p.Db == "" {
+		p.Db = "ok"
+	}
+	if p.Db == "err" && !dberr { // see -dberr
+		p.Db = "ok"
+	}
+	if p.Dbst == "" {
+		switch p.Db {
+		case "ok":
+			p.Dbst = okStates[rng.Intn(len(okStates))]
+		case "nobegin":
+			p.Dbst = noBeginStates[rng.Intn(len(noBeginStates))]
+		case "err":
+			p.Dbst = "witherr"
+		}
+	}
+	if p.Cancel >= 0 && p.Db != "ok" {
+		p.Cancel = -1
+	}
+	if p.Cancel >= 0 && p.Dbst == "plain" {
+		p.Dbst = "ctx"
+	}
+	if p.Ffl == "" {
+		p.Ffl = failKinds[rng.Intn(len(failKinds))]
+		if rng.Intn(2) == 0 {
+			p.Ffl = "plain"
+		}
+	}
+	if p.Nfl == "" {
+		p.Nfl = []string{"none", "nilslice", "empty"}[rng.Intn(3)]
+	}
+	for k := range p.Steps {
+		s := &p.Steps[k]
+		s.Do = s.Ex
+		if p.Dbst == "dryrun" { // statements of a dry-run handle never reach the database
+			if s.Fl == "exec" || s.Fl == "swallow" {
+				s.Fl = "plain"
+			}
+			s.Ex = 0
+		}
+	}
+}
+
+// prepare builds script, closures and arguments of a call (p must be normalized).
+func prepare(rng *rand.Rand, p plan) *call {
 	l := &evlog{}
 	sc := &script{log: l, beginOK: p.Begin, connectOK: true, commitOK: p.Commit, rollbackOK: p.Rollback,
-		execFail: map[int]bool{}, execLeft: map[int]int{}}
-	bfl := "driver"
-	if !p.Begin && rng.Intn(3) == 0 {
-		sc.connectOK = false
-		bfl = "connect"
-	}
-	// the context the db handle is bound to (none at all for most calls that never cancel)
-	ctx, cancel := context.WithCancel(context.Background())
-	defer cancel()
-	withCtx := p.Cancel >= 0 || rng.Intn(4) == 0
+		ffl: p.Ffl, execFail: map[int]bool{}, execLeft: map[int]int{}}
+	c := &call{p: p, l: l, sc: sc, bfl: "driver"}
+	c.ctx, c.cancel = context.WithCancel(context.WithValue(context.Background(), ctxKey{}, sc))
 	fns := make([]gormx.GormProcFn, 0, len(p.Steps))
 	for k, s := range p.Steps {
 		sc.execLeft[k+1] = s.Ex
@@ -519,50 +733,200 @@ func runOne(w *tr.W, rng *rand.Rand, src string, p plan) {
 		}
 		var cf func()
 		if p.Cancel == k+1 {
-			cf = cancel
+			cf = c.cancel
 		}
 		fns = append(fns, mkStep(l, k+1, s, cf))
 	}
-	args, shape := group(rng, p.N, fns)
-
-	sqlDB := sql.OpenDB(connector{sc})
-	defer sqlDB.Close()
-	db, err := gorm.Open(mysql.New(mysql.Config{Conn: sqlDB, SkipInitializeWithVersion: true}),
-		&gorm.Config{DisableAutomaticPing: true, Logger: logger.Discard})
-	if err != nil {
-		tr.Fatal("gorm.Open on the fake driver: %v", err)
+	c.args, c.shape = group(rng, p.N, fns)
+	if p.N == 0 {
+		switch p.Nfl {
+		case "nilslice":
+			c.args = nil
+		case "empty":
+			c.args = []gormx.GormProcFn{}
+		}
 	}
+	return c
+}
 
-	if withCtx {
-		db = db.WithContext(ctx)
-	}
-	if p.Cancel == 0 {
-		cancel()
-	}
+// closure identity of a func value (reflect's Pointer is the code, shared by all closures of a literal)
+func fnID(f gormx.GormProcFn) uintptr { return *(*uintptr)(unsafe.Pointer(&f)) }
 
+// run calls Transact on handle h and waits for its end (watchdog: a call that does not come back is
+// an observation, `hang`).  Reports whether the argument list is still what was passed.
+func (c *call) run(h *gorm.DB) {
+	before := make([]uintptr, len(c.args))
+	for i, f := range c.args {
+		before[i] = fnID(f)
+	}
 	done := make(chan tr.E, 1)
 	go func() {
 		returned := false
 		defer func() {
-			if c := recover(); c != nil {
-				done <- tr.E{"ev": "ret", "r": tr.E{"kind": "raised", "i": 0}, "what": fmt.Sprint(c)}
+			if x := recover(); x != nil {
+				done <- tr.E{"ev": "ret", "r": tr.E{"kind": "raised", "i": 0}, "what": fmt.Sprint(x)}
 			} else if !returned {
 				done <- tr.E{"ev": "gone"}
 			}
 		}()
-		e := gormx.Transact(db, args...)
+		var e error
+		if c.p.N == 0 && c.p.Nfl == "none" {
+			e = gormx.Transact(h)
+		} else {
+			e = gormx.Transact(h, c.args...)
+		}
 		returned = true
-		done <- tr.E{"ev": "ret", "r": classify(e, p, l), "what": fmt.Sprint(e)}
+		done <- tr.E{"ev": "ret", "r": classify(e, c.p, c.l), "what": fmt.Sprint(e)}
 	}()
-	fin := <-done
+	select {
+	case c.fin = <-done:
+	case <-time.After(10 * time.Second):
+		c.fin, c.hung = tr.E{"ev": "hang"}, true
+	}
+	inmut := true
+	for i, f := range c.args {
+		if before[i] != fnID(f) {
+			inmut = false
+		}
+	}
+	c.fin["inmut"] = inmut
+}
 
-	w.Emit(tr.E{"ev": "reset", "cfg": p.rec(), "src": src, "shape": shape, "bfl": bfl, "ctx": withCtx})
-	l.mu.Lock()
-	for _, e := range l.evs {
+func (c *call) emit(w *tr.W, src string, inuse int) {
+	c.fin["inuse"] = inuse
+	w.Emit(tr.E{"ev": "reset", "cfg": c.p.rec(), "src": src, "shape": c.shape, "bfl": c.bfl, "dbst": c.p.Dbst,
+		"ffl": c.p.Ffl, "nfl": c.p.Nfl})
+	c.l.mu.Lock()
+	for _, e := range c.l.evs {
 		w.Emit(e)
 	}
-	l.mu.Unlock()
-	w.Emit(fin)
+	c.l.mu.Unlock()
+	w.Emit(c.fin)
+}
+
+// connections still checked out of the pool (a release may lag a moment behind the driver call)
+func inUse(sqlDB *sql.DB) int {
+	for t0 := time.Now(); sqlDB.Stats().InUse != 0 && time.Since(t0) < 300*time.Millisecond; {
+		time.Sleep(100 * time.Microsecond)
+	}
+	return sqlDB.Stats().InUse
+}
+
+var dbErrOn bool
+
+func runOne(w *tr.W, rng *rand.Rand, src string, p plan) {
+	normalize(rng, &p, dbErrOn)
+	c := prepare(rng, p)
+	defer c.cancel()
+	if !p.Begin && rng.Intn(3) == 0 && p.Db == "ok" {
+		c.sc.connectOK = false
+		c.bfl = "connect"
+	}
+	// the database: a fresh one, or the one earlier calls used
+	var d *database
+	own := true
+	switch {
+	case sharable[p.Dbst] && c.bfl == "driver" && rng.Intn(2) == 0:
+		if shared == nil {
+			shared = openDB(&gorm.Config{})
+		}
+		d, own = shared, false
+	case p.Dbst == "prepare":
+		d = openDB(&gorm.Config{PrepareStmt: true})
+	case p.Dbst == "skipdef":
+		d = openDB(&gorm.Config{SkipDefaultTransaction: true})
+	default:
+		d = openDB(&gorm.Config{})
+	}
+	// the handle in the state the plan asks for (the harness' own preparation is not recorded)
+	h := d.db
+	var outer *gorm.DB
+	switch p.Dbst {
+	case "ctx":
+		h = h.WithContext(c.ctx)
+	case "session":
+		h = h.Session(&gorm.Session{})
+	case "newdb":
+		h = h.Session(&gorm.Session{NewDB: true, SkipHooks: true})
+	case "debug":
+		h = h.Debug()
+	case "where":
+		h = h.Table("t").Where("v > ?", 1)
+	case "sessprep":
+		h = h.Session(&gorm.Session{PrepareStmt: true})
+	case "dryrun":
+		h = h.Session(&gorm.Session{DryRun: true})
+	case "maxconn1":
+		d.sqlDB.SetMaxOpenConns(1)
+	case "intx":
+		outer = h.Begin()
+		h = outer
+	case "closed":
+		d.sqlDB.Close()
+	case "witherr":
+		h = h.Session(&gorm.Session{})
+		_ = h.AddError(errors.New("an earlier error on the handle"))
+	}
+	if p.Cancel >= 0 && p.Dbst != "ctx" { // whatever else the handle is, it is bound to the context
+		h = h.WithContext(c.ctx)
+	}
+	if p.Cancel == 0 {
+		c.cancel()
+	}
+	d.b.set(c.sc)
+	c.run(h)
+	d.b.set(&script{quiet: true})
+	if outer != nil {
+		outer.Rollback()
+	}
+	n := inUse(d.sqlDB)
+	c.emit(w, src, n)
+	if own {
+		go d.sqlDB.Close()
+	} else if n != 0 || c.hung {
+		go shared.sqlDB.Close()
+		shared = nil
+	}
+}
+
+// round: several calls released together on one fresh database (first use under contention, calls
+// side by side on one pool).  Every call is bound to its own context, through which the driver finds
+// the call's script; each call is one trace.
+func runRound(w *tr.W, rng *rand.Rand, k, maxLen int) {
+	d := openDB(&gorm.Config{PrepareStmt: rng.Intn(4) == 0})
+	calls := make([]*call, k)
+	for i := range calls {
+		p := randPlan(rng, maxLen)
+		p.Db, p.Dbst = "ok", "ctx"
+		normalize(rng, &p, false)
+		calls[i] = prepare(rng, p)
+		if p.Cancel == 0 {
+			calls[i].cancel()
+		}
+	}
+	var ready, wg sync.WaitGroup
+	var goFlag int32
+	ready.Add(k)
+	wg.Add(k)
+	for _, c := range calls {
+		go func(c *call) {
+			defer wg.Done()
+			h := d.db.WithContext(c.ctx)
+			ready.Done()
+			for atomic.LoadInt32(&goFlag) == 0 { // spin barrier
+			}
+			c.run(h)
+		}(c)
+	}
+	ready.Wait()
+	atomic.StoreInt32(&goFlag, 1)
+	wg.Wait()
+	n := inUse(d.sqlDB)
+	for _, c := range calls {
+		c.emit(w, "round", n)
+		c.cancel()
+	}
+	go d.sqlDB.Close()
 }
 
 // ---------------------------------------------------------------------------- generators
@@ -594,10 +958,14 @@ func readPlan(path string) plan {
 }
 
 var (
-	errFl = []string{"plain", "exec", "wrap", "notfound", "nfwrap", "dup1062", "dup1105", "mysql1213",
+	errFl = []string{"plain", "exec", "wrap", "nested", "notfound", "nfwrap", "dup1062", "dup1105", "mysql1213",
 		"grpcnf", "grpcdup", "txdone", "canceled", "invalidtx"}
 	panicFl = []string{"plain", "perr", "pval", "rt"}
 )
+
+func mkPlan(n int, steps []step, begin, commit, rollback bool, cancel int) plan {
+	return plan{N: n, Steps: steps, Begin: begin, Commit: commit, Rollback: rollback, Cancel: cancel, Db: "ok"}
+}
 
 func st(out string, ex int, fl, fin string) step { return step{Out: out, Ex: ex, Fl: fl, Fin: fin} }
 
@@ -610,10 +978,13 @@ func variants(full bool) []step {
 		st("panic", 1, "plain", "none"), st("panic", 0, "rt", "none"),
 		st("pnil", 1, "plain", "none"),
 		st("exit", 1, "plain", "none"),
+		st("nilfn", 0, "plain", "none"), // a nil function in the list
 		// the step ends the transaction itself
 		st("ok", 0, "plain", "rollback"), st("ok", 1, "plain", "commit"), st("err", 1, "plain", "rollback"),
 	}
 	if full {
+		// the step calls Transact again on the handle it got
+		v = append(v, st("err", 0, "nested", "none"), st("ok", 1, "nestedok", "none"), st("ok", 0, "nestedok", "rollback"))
 		v = append(v, st("err", 1, "nfwrap", "none"), st("err", 0, "dup1105", "none"), st("err", 0, "mysql1213", "none"),
 			st("err", 0, "grpcnf", "none"), st("err", 1, "txdone", "none"))
 		v = append(v, st("ok", 1, "swallow", "none"), st("err", 1, "wrap", "none"), st("panic", 0, "perr", "none"),
@@ -641,24 +1012,24 @@ func enumerate(w *tr.W, rng *rand.Rand, maxLen int, full bool) int {
 		nargs := 1 + rng.Intn(len(steps)+1)
 		if allok {
 			for _, c := range []bool{true, false} {
-				runOne(w, rng, "enum", plan{nargs, append([]step{}, steps...), true, c, rng.Intn(2) == 0, -1})
+				runOne(w, rng, "enum", mkPlan(nargs, append([]step{}, steps...), true, c, rng.Intn(2) == 0, -1))
 				n++
 			}
 		} else {
 			for _, r := range []bool{true, false} {
-				runOne(w, rng, "enum", plan{nargs, append([]step{}, steps...), true, rng.Intn(2) == 0, r, -1})
+				runOne(w, rng, "enum", mkPlan(nargs, append([]step{}, steps...), true, rng.Intn(2) == 0, r, -1))
 				n++
 			}
 		}
 		if len(steps) <= 1 || rng.Intn(8) == 0 {
-			runOne(w, rng, "enum", plan{nargs, append([]step{}, steps...), false, rng.Intn(2) == 0, rng.Intn(2) == 0, -1})
+			runOne(w, rng, "enum", mkPlan(nargs, append([]step{}, steps...), false, rng.Intn(2) == 0, rng.Intn(2) == 0, -1))
 			n++
 		}
 		// the handle's context is cancelled: before the call, inside each step (short lists: every
 		// point; longer ones: one point now and then)
 		for k := 0; k <= len(steps); k++ {
 			if len(steps) <= 2 || (rng.Intn(3) == 0 && k == 1+rng.Intn(len(steps))) {
-				runOne(w, rng, "enum", plan{nargs, append([]step{}, steps...), true, rng.Intn(4) != 0, rng.Intn(2) == 0, k})
+				runOne(w, rng, "enum", mkPlan(nargs, append([]step{}, steps...), true, rng.Intn(4) != 0, rng.Intn(2) == 0, k))
 				n++
 			}
 		}
@@ -672,11 +1043,81 @@ func enumerate(w *tr.W, rng *rand.Rand, maxLen int, full bool) int {
 			rec(append(cur, v))
 		}
 	}
-	// no arguments at all
-	runOne(w, rng, "enum", plan{0, []step{}, true, true, true, -1})
-	runOne(w, rng, "enum", plan{0, []step{}, false, false, false, 0})
-	n += 2
 	rec([]step{})
+	return n
+}
+
+// enumStates: every state of the handle x no steps passed in every way / every one-step list, with
+// begin succeeding and failing; every kind of refusal for begin, commit and rollback.
+func enumStates(w *tr.W, rng *rand.Rand) int {
+	n := 0
+	states := [][2]string{}
+	seen := map[string]bool{}
+	for _, s := range okStates {
+		if !seen[s] {
+			seen[s] = true
+			states = append(states, [2]string{"ok", s})
+		}
+	}
+	for _, s := range noBeginStates {
+		states = append(states, [2]string{"nobegin", s})
+	}
+	if dbErrOn {
+		states = append(states, [2]string{"err", "witherr"})
+	}
+	run := func(p plan, cl, st string) {
+		p.Db, p.Dbst = cl, st
+		runOne(w, rng, "state", p)
+		n++
+	}
+	for _, cs := range states {
+		for _, nfl := range []string{"none", "nilslice", "empty"} {
+			p := mkPlan(0, []step{}, rng.Intn(2) == 0, true, true, -1)
+			p.Nfl = nfl
+			run(p, cs[0], cs[1])
+		}
+		run(mkPlan(1+rng.Intn(2), []step{}, true, true, true, -1), cs[0], cs[1]) // only empty Combines
+		for _, v := range variants(false) {
+			run(mkPlan(1, []step{v}, true, rng.Intn(4) != 0, rng.Intn(4) != 0, -1), cs[0], cs[1])
+			if rng.Intn(3) == 0 {
+				run(mkPlan(1, []step{v}, false, true, true, -1), cs[0], cs[1])
+			}
+		}
+		run(mkPlan(2, []step{st("ok", 1, "plain", "none"), st("ok", 2, "plain", "none")}, true, true, true, -1), cs[0], cs[1])
+	}
+	for _, k := range failKinds {
+		for _, which := range []int{0, 1, 2} {
+			var p plan
+			switch which {
+			case 0:
+				p = mkPlan(1, []step{st("ok", 1, "plain", "none")}, false, true, true, -1)
+			case 1:
+				p = mkPlan(1, []step{st("ok", 1, "plain", "none")}, true, false, true, -1)
+			case 2:
+				p = mkPlan(1, []step{st("err", 1, "plain", "none")}, true, true, false, -1)
+			}
+			p.Ffl, p.Dbst = k, "plain"
+			runOne(w, rng, "state", p)
+			n++
+		}
+	}
+	return n
+}
+
+// long lists: all steps succeed up to a last one of every basic variant
+func enumLong(w *tr.W, rng *rand.Rand, count, length int) int {
+	n := 0
+	vs := variants(false)
+	for i := 0; i < count; i++ {
+		m := length/2 + rng.Intn(length/2+1)
+		steps := make([]step, 0, m)
+		for k := 0; k < m-1; k++ {
+			steps = append(steps, st("ok", rng.Intn(2), "plain", "none"))
+		}
+		steps = append(steps, vs[i%len(vs)])
+		runOne(w, rng, "long", mkPlan(1+rng.Intn(m), steps, true, rng.Intn(4) != 0, true, -1))
+		n++
+	}
 	return n
 }
 
@@ -690,7 +1131,13 @@ func randStep(rng *rand.Rand, pfail int) step {
 		if ex > 0 && rng.Intn(10) == 0 {
 			return st("ok", ex, "swallow", fin)
 		}
+		if rng.Intn(15) == 0 {
+			return st("ok", ex, "nestedok", fin)
+		}
 		return st("ok", ex, "plain", fin)
+	}
+	if rng.Intn(10) == 0 {
+		return st("nilfn", 0, "plain", "none")
 	}
 	switch rng.Intn(5) {
 	case 0, 1:
@@ -727,17 +1174,29 @@ func randPlan(rng *rand.Rand, maxLen int) plan {
 			cancel = m
 		}
 	}
-	return plan{n, steps, rng.Intn(8) != 0, rng.Intn(3) != 0, rng.Intn(3) != 0, cancel}
+	p := mkPlan(n, steps, rng.Intn(8) != 0, rng.Intn(3) != 0, rng.Intn(3) != 0, cancel)
+	switch x := rng.Intn(24); {
+	case x == 0:
+		p.Db = "nobegin"
+	case x == 1 && dbErrOn:
+		p.Db = "err"
+	}
+	return p
 }
 
 func main() {
 	plans := flag.String("plans", "", "directory of TLC plans")
 	out := flag.String("out", "", "trace file")
 	seed := flag.Int64("seed", 1, "seed")
-	enumLen := flag.Int("enum", 3, "exhaustive enumeration over 13 step variants (+ cancellation points): maximal number of steps")
-	enumFull := flag.Int("enumfull", 2, "same over all 30 step variants (flavours): maximal number of steps")
+	enumLen := flag.Int("enum", 3, "exhaustive enumeration over 14 step variants (+ cancellation points): maximal number of steps")
+	enumFull := flag.Int("enumfull", 2, "same over all 34 step variants (flavours): maximal number of steps")
 	nrand := flag.Int("rand", 300, "number of random long plans")
 	maxLen := flag.Int("maxlen", 12, "maximal number of steps of a random plan")
+	nlong := flag.Int("long", 14, "number of very long lists")
+	longLen := flag.Int("longlen", 300, "their maximal length")
+	rounds := flag.Int("rounds", 60, "rounds of 2..6 calls released together on one fresh database")
+	flag.BoolVar(&dbErrOn, "dberr", false, "also pass handles that already carry an error "+
+		"(the unchanged tree leaves the transaction open: known finding, see checks/c18.py)")
 	flag.Parse()
 	if *out == "" {
 		tr.Fatal("-out required")
@@ -757,9 +1216,15 @@ func main() {
 	}
 	ne := enumerate(w, rng, *enumLen, false)
 	ne += enumerate(w, rng, *enumFull, true)
+	ns := enumStates(w, rng)
+	nl := enumLong(w, rng, *nlong, *longLen)
 	for i := 0; i < *nrand; i++ {
 		runOne(w, rng, "rand", randPlan(rng, *maxLen))
 	}
+	for i := 0; i < *rounds; i++ {
+		runRound(w, rng, 2+rng.Intn(5), 4)
+	}
 	w.Close()
-	fmt.Printf("c18: %d plans, %d enumerated, %d random, %d events\n", np, ne, *nrand, w.N())
+	fmt.Printf("c18: %d plans, %d enumerated, %d handle states / refusal kinds, %d long, %d random, %d rounds, %d events\n",
+		np, ne, ns, nl, *nrand, *rounds, w.N())
 }
